@@ -68,18 +68,22 @@ def valToSExpr : Val K → Except Err (SExpr K)
   | .atom (.sym e) => .ok e
   | _ => .error (.ood "non-scalar array element")
 
-/-- substitution in one value: only a top-level symbolic value, and the symbolic elements of
-an array variable, are substituted (`program.py:241-299`) -/
-def substVal (σ : List (String × Val K)) (inVars : Bool) : Val K → Except Err (Val K)
+/-- substitution in one value (`program.py:241-299`, as repaired): a symbolic value, the
+symbolic elements of an array, the symbolic elements of a list -/
+def substVal (σ : List (String × Val K)) : Val K → Except Err (Val K)
   | .atom (.sym e) => substS σ e
-  | .arr dt r c flat =>
-    if inVars then do
-      let flat' ← flat.mapM fun e =>
-        match e with
-        | .num n => .ok (.num n)
-        | e => do valToSExpr (← substS σ e)
-      .ok (.arr dt r c flat')
-    else .ok (.arr dt r c flat)
+  | .arr dt r c flat => do
+    let flat' ← flat.mapM fun e =>
+      match e with
+      | .num n => .ok (.num n)
+      | e => do valToSExpr (← substS σ e)
+    .ok (.arr dt r c flat')
+  | .list vs => do
+    let vs' ← vs.mapM fun a =>
+      match a with
+      | .sym e => do valToAtom (← substS σ e)
+      | a => .ok a
+    .ok (.list vs')
   | v => .ok v
 
 def rangeNat (n : Nat) : List Nat := List.range n
@@ -114,8 +118,8 @@ def substOp (σ : List (String × Val K)) (op : Op K) : Except Err (Op K) :=
   match op.args with
   | none => .ok op
   | some (pos, kw) => do
-    let pos' ← pos.mapM (substVal σ false)
-    let kw' ← kw.mapM fun kv => do .ok (kv.1, ← substVal σ false kv.2)
+    let pos' ← pos.mapM (substVal σ)
+    let kw' ← kw.mapM fun kv => do .ok (kv.1, ← substVal σ kv.2)
     .ok { op with args := some (pos', kw') }
 
 /-- `BlackbirdProgram.__call__(**kwargs)` -/
@@ -126,7 +130,7 @@ def instantiate (p : Program K) (kwargs : List (String × Val K)) : Except Err (
     -- later duplicates win, as in a dict built by successive updates
     let σ := σ.foldl (fun d kv => dictSet d kv.1 kv.2) []
     let ops ← p.ops.mapM (substOp σ)
-    let vars ← p.vars.mapM fun kv => do .ok (kv.1, ← substVal σ true kv.2)
+    let vars ← p.vars.mapM fun kv => do .ok (kv.1, ← substVal σ kv.2)
     .ok { p with ops := ops, vars := vars, params := [] }
 
 /-! ### casts -/
@@ -278,6 +282,12 @@ def castLoopVal (ty : VarType) (v : Val K) : Except Err (Val K) :=
   | .str, .atom (.str s) => .ok (.atom (.str s))
   | .bool, .atom (.bool b) => .ok (.atom (.bool b))
   | .bool, .atom (.num (.int i)) => if i = 0 || i = 1 then .ok (.atom (.bool (i = 1))) else .error .value
+  | .bool, .atom (.num (.real x)) =>
+    if Scalar.isZero x then .ok (.atom (.bool false))
+    else if Scalar.beq x (Scalar.ofInt 1) then .ok (.atom (.bool true))
+    else .error .value
+  | .complex, .atom (.bool b) =>
+    .ok (.atom (.num (.cplx (Scalar.ofInt (boolToInt b)) (Scalar.ofInt 0))))
   | .int, .atom (.num (.cplx _ _)) => .error .type
   | .float, .atom (.num (.cplx _ _)) => .error .type
   | .int, .atom (.str _) => .error .value
